@@ -9,11 +9,11 @@ from props import C36 as base
 from props.C36 import M, cbytes, coq_tv, coq_ftab, coq_stab, coq_final, to_j
 
 ID = "C37"
-QUICK_N = 200
+QUICK_N = 280
 THOROUGH_N = 4000
 SHARD = 40
 CASE_TYPE = "case37"
-COQ_PRELUDE = "From MV Require Import Model.Tnet Corr.C36.\n"
+COQ_PRELUDE = "From MV Require Import Model.Tnet Corr.C36.\nFrom MV Require Import Corr.C37.\n"
 TRANSLATORS = ["flowreader_except"]
 RULE = ("kinds: trunc-stub 60% = 1-4 small generated records (value trees with floats/UTF-8/nested dicts, occasionally a "
         "non-dict or a record on which from_state raises) read through the real FlowReader (from_state stubbed) at EVERY "
